@@ -9,16 +9,26 @@ for d in sorted(glob.glob(os.path.join(V, "seeded", "*", "meta.json"))):
     det = sorted(p for p, r in res.items() if r["exit"] == 1)
     wit = sorted(p for p, r in res.items() if r["exit"] == 1 and not any("no-failing-input-found" in l for l in r["lines"]))
     und = sorted(p for p, r in res.items() if r["exit"] == 2)
-    ok = sorted(p for p, r in res.items() if r["exit"] == 0)
+    ok = sorted(p for p, r in res.items() if r["exit"] == 0 and any(l.startswith("OK") for l in r["lines"]))
+    pno = sorted(p for p, r in res.items() if r["exit"] == 0 and not any(l.startswith("OK") for l in r["lines"]))
     target = m.get("breaks_property")
     verdict = "caught (with failing input)" if target in wit else "caught (failed obligation, no input)" if target in det else "undecided" if target in und else "MISSED" if target in ok else "not evaluated"
-    rows.append((m.get("id"), target, m.get("needs_to_manifest", ""), verdict, ", ".join(f"{p}{'*' if p in wit else ''}" for p in det), ", ".join(und), ", ".join(ok), "yes" if m.get("confirmed") else "no" if m.get("confirmed") is False else "?", m.get("evaluated_at", {})))
+    rows.append((m.get("id"), target, m.get("needs_to_manifest", "").replace("|", "&#124;"), verdict, ", ".join(f"{p}{'*' if p in wit else ''}" for p in det), ", ".join(und + [x + " (proof not obtained, bounded search clean)" for x in pno]), ", ".join(ok), "yes" if m.get("confirmed") else "no" if m.get("confirmed") is False else "?", m.get("evaluated_at", {})))
 with open(os.path.join(V, "seeded", "SUMMARY.md"), "w") as f:
     f.write("# Seeded changes: which check reports what\n\n`*` = VIOLATION with a concrete failing input re-executed against the real code; without `*` the VIOLATION names the failed proof obligation only. "
             "UNDECIDED = exit 2 (proof not obtained, bounded search found nothing) - never an alarm.\n\n")
-    f.write("| change | breaks | needs to manifest | verdict of the target property's check | VIOLATION reported by | UNDECIDED | OK | confirmed |\n|---|---|---|---|---|---|---|---|\n")
+    f.write("| change | breaks | needs to manifest | verdict of the target property's check | VIOLATION reported by | no verdict / proof not obtained | proved (OK) | confirmed |\n|---|---|---|---|---|---|---|---|\n")
     for r in rows:
         f.write(f"| {r[0]} | {r[1]} | {r[2]} | **{r[3]}** | {r[4]} | {r[5]} | {r[6]} | {r[7]} |\n")
     if rows:
         f.write(f"\nEvaluated at: {rows[0][8]}\n")
+    f.write("\n# Behaviour-preserving refactorings (harmless/): what every check says\n\n| change | VIOLATION | exit 2 | proved (OK) | proof not obtained, bounded search clean (exit 0) | what |\n|---|---|---|---|---|---|\n")
+    for d in sorted(glob.glob(os.path.join(V, "harmless", "*", "meta.json"))):
+        m = json.load(open(d))
+        res = m.get("checks_on_patched_repo", {})
+        vio = sorted(p for p, r in res.items() if r["exit"] == 1)
+        e2 = sorted(p for p, r in res.items() if r["exit"] == 2)
+        ok = sorted(p for p, r in res.items() if r["exit"] == 0 and any(l.startswith("OK") for l in r["lines"]))
+        pno = sorted(p for p, r in res.items() if r["exit"] == 0 and not any(l.startswith("OK") for l in r["lines"]))
+        f.write(f"| {m.get('id')} | {', '.join(vio) or '-'} | {', '.join(e2) or '-'} | {', '.join(ok) or '-'} | {', '.join(pno) or '-'} | {str(m.get('what',''))[:140].replace('|','&#124;')} |\n")
 print(open(os.path.join(V, "seeded", "SUMMARY.md")).read()[:3000])
